@@ -57,7 +57,9 @@ def cases(tier, seed):
                    'per_channel': (i // 2) % 2 == 1, 'seed': seed * 41 + i})
     for i in range(60 if tier == 'quick' else 800):
         cs.append({'kind': 'sn', 'net_seed': seed * 1000003 + 62000 + i,
-                   'variant': ['copies', 'hard-each', 'noblocks'][i % 3], 'seed': seed * 43 + i})
+                   'variant': ['copies', 'hard-each', 'noblocks'][i % 3], 'seed': seed * 43 + i,
+                   # the mode the user's model is in when it is handed to SuperNet
+                   'user_train': (i // 3) % 2 == 1})
     return cs
 
 
@@ -274,7 +276,8 @@ def run_sn(case, ctx):
                 st['c'] = c
         desc['c_last'] = c
     else:
-        desc = snlib.gen_sn_desc(rng, max_branches=4)
+        desc = snlib.gen_sn_desc(rng, max_branches=4,
+                                 kinds=snlib.BRANCH_KINDS + ['block_drop', 'block_drop'])
     blocks = snlib.sn_blocks(desc)
     user = snlib.build_sn(desc, case['seed'])
     if v == 'copies':
@@ -293,6 +296,11 @@ def run_sn(case, ctx):
     with torch.no_grad():
         y0 = ref(x)
     h0 = sd_hash(user)
+    if case.get('user_train'):
+        user.train()
+        ctx.cls('sn-user-in-train-mode')
+    if any(b['kind'] == 'block_drop' for st in blocks for b in st['branches']):
+        ctx.cls('sn-block-reads-training-flag')
     try:
         sn = SuperNet(user, input_example=snlib.sn_input(desc, case['seed'], 1))
     except Exception as e:
